@@ -421,3 +421,55 @@ Example shrink_example :
   shrink_fuel acc 4 [s2t "bot a"; s2t "bot b"; s2t "!!"; s2t "??"] = Some (StartFlow [s2t "bot a"; s2t "bot b"]) /\
   shrink_fuel (fun _ => false) 3 [s2t "x"; s2t "y"; s2t "z"] = Some GeneralResponse.
 Proof. vm_compute. split; reflexivity. Qed.
+
+(* ---------------------------------------------------------------- bot intent `$name` *)
+
+(* whatever the context variable holds, the `text` of the BotMessage event is a str or the action
+   fails (contained): a non-str never leaves generate_bot_message *)
+Lemma ctx_utterance_is_str : forall v r, ctx_utterance false v = Ok r -> exists t, r = inl t.
+Proof.
+  intros v r H. destruct v as [s|[|]]; simpl in H.
+  - destruct (truthy s).
+    + destruct (clean_utterance_content_total s) as [c E]. rewrite E in H. simpl in H. inversion H. eauto.
+    + inversion H. eauto.
+  - discriminate.
+  - inversion H. eauto.
+Qed.
+
+Lemma ctx_utterance_nonstr_contained : ctx_utterance false (CNonStr true) = Err AttributeError.
+Proof. reflexivity. Qed.
+
+(* ... whereas a clean_utterance_content that skips non-str values lets the object through *)
+Lemma ctx_utterance_guarded_refuted : exists v, ctx_utterance true v = Ok (inr tt).
+Proof. exists (CNonStr true). reflexivity. Qed.
+
+(* ---------------------------------------------------------------- generated values *)
+
+Lemma forallb_app_true : forall (A : Type) (f : A -> bool) a b,
+  forallb f a = true -> forallb f b = true -> forallb f (a ++ b) = true.
+Proof. intros. rewrite forallb_app. rewrite H, H0. reflexivity. Qed.
+
+(* accepted => every atom of the value, dict keys included, can be stored *)
+Lemma supported_value_sound : forall v,
+  supported_value true v = true -> forallb atom_storable (atoms v) = true.
+Proof.
+  fix IH 1. intros v. destruct v as [a|l|kvs].
+  - simpl. intro H. rewrite H. reflexivity.
+  - simpl. induction l as [|x r IHr]; intro H; [reflexivity|].
+    apply andb_true_iff in H. destruct H as [Hx Hr].
+    apply forallb_app_true; [apply IH; exact Hx | apply IHr; exact Hr].
+  - simpl. induction kvs as [|[k x] r IHr]; intro H; [reflexivity|].
+    apply andb_true_iff in H. destruct H as [H Hr]. apply andb_true_iff in H. destruct H as [Hk Hx].
+    apply forallb_app_true; [apply IH; exact Hk|].
+    apply forallb_app_true; [apply IH; exact Hx | apply IHr; exact Hr].
+Qed.
+
+(* without the check of the keys an unstorable key is accepted *)
+Lemma supported_value_keys_unchecked_refuted :
+  exists v, supported_value false v = true /\ forallb atom_storable (atoms v) = false.
+Proof. exists (PDict [(PAtom AEllipsis, PAtom AInt)]). split; reflexivity. Qed.
+
+Example supported_examples :
+  supported_value true (PDict [(PSeq [PAtom AInt; PAtom AEllipsis], PAtom AInt)]) = false /\
+  supported_value true (PSeq [PDict [(PAtom AStr, PSeq [PAtom AFloat; PAtom ANoneV])]; PAtom ABool]) = true.
+Proof. split; reflexivity. Qed.
